@@ -12,13 +12,14 @@ PROPS["C13"] = {
     "modelled": "syntax/expand.go: Expand (both phases), expandRule, expandExpr, extractNonterm (ProvisionalName, Equal, name_N suffixes), sortTail, "
                 "concat/multiConcat/collapseEmpty, list and optional rule synthesis; syntax/syntax.go: Expr.Equal, Model.Rearrange; util/ident.Produce (C28 model) inside ProvisionalName; "
                 "DefaultExpandOptions and untyped symbols (no synthesised list/optional commands), group = 0 (models not produced by Instantiate)",
-    "partial": "C13_expand_correct covers the whole model of Expand under the boolean side condition expand_checks (evaluated on every generated model: no Fatal branch, references in range, "
-               "the sortTail permutation is a permutation); not proved: that expand_checks holds for every well-formed model; proved building blocks (C13_sort_tail_sort_partial): the sort inside sortTail permutes its local list for every name function, the local list is duplicate free, every permutation of 0..n-1 passes perm_ok; missing is the phase-1 loop invariant that sortTail hands out exactly the slots its local nonterminals held. The bridge to Derive.derives (C13_flat_table_is_cfg) is for tables of flat choices "
+    "partial": "C13_expand_correct_wf covers the whole model of Expand under the STATIC boolean ExpandWf.wf_model (references of the input in range; every list separator reached by expandExpr expands to one alternative, n_alts sep = 1); "
+               "C13_wf_model_checks proves that wf_model implies the run-time side conditions expand_checks (no Fatal branch, references stay in range through phase 1, the sortTail permutation is a permutation - phase-1 loop invariant) for every model; "
+               "both booleans are still evaluated on every generated model (verdicts bad:side-conditions-... / bad:static-well-formedness-...). The bridge to Derive.derives (C13_flat_table_is_cfg) is for tables of flat choices "
                "(no set / lookahead nonterminals left). compiler/syntax.go convertPart/convertRules are covered by the .tm end-to-end oracle only (no model); updateArgRefs/CmdArgs/Pos belong to C16",
-    "level_text": "Universal Coq theorems: C13_expand_correct - for every model passing the boolean side conditions and every original nonterminal X, the language of X in the extended notation "
+    "level_text": "Universal Coq theorems: C13_expand_correct_wf - for every statically well-formed model (wf_model: references in range, simple separators; no hypothesis about the run of the pass) and every original nonterminal X, the language of X in the extended notation "
                   "(least solution of the value equations: optional, nested choice, sequence, wrappers, lists with separators, sets, lookaheads) equals the language of perm(X) in the table produced by the model of "
                   "syntax.Expand (phase 1 with extraction and reuse by Equal, sortTail/Rearrange, phase 2 list and optional rules); C13_flat_table_is_cfg - the least solution of a table of flat choices is exactly "
-                  "Derive.derives of the plain grammar read from it; plus the per-step theorems (expandExpr, a whole nonterminal, multiConcat = product, list rules unfold, Equal-sound reuse, sugar-free shape, "
+                  "Derive.derives of the plain grammar read from it; C13_wf_model_checks - wf_model implies the run-time side conditions (no Fatal branch, references in range, sortTail builds a permutation) for every model; plus the per-step theorems (expandExpr, a whole nonterminal, multiConcat = product, list rules unfold, Equal-sound reuse, sugar-free shape, "
                   "extracted lists are non-empty or separator-free). The step-by-step model is compared exactly with syntax.Expand, and the implementation's own output "
                   "(from the API and from compiler.Compile on generated .tm text) is checked against the extended-notation semantics on all short words.",
     "level_note": "Trusted: Coq kernel, extraction, OCaml/Go/Python glue; Derive.v chart recogniser and the ExtLang.v recogniser are specification oracles (not proved here). "
